@@ -21,6 +21,11 @@ TIE_ACCESS = [(f"TieAccess.{n}", "Relay.Tie.Access") for n in
                "listDeniedHandler_tie", "listAllowedHandler_tie", "denyReq_status_as_translated",
                "hasRequiredClaims_exp_nonNil", "mintedToken_as_model", "sessionHandler_refusal", "sessionHandler_grant",
                "translated_deny_then_session_refused"]]
+# the access API over whole histories of the translated handlers (Relay/Tie/AccessE2E.lean)
+TIE_ACCESS = TIE_ACCESS + [(f"TieAccessE2E.{n}", "Relay.Tie.AccessE2E") for n in
+                           ["api_step_tie", "api_run_tie", "translated_session_grant_iff", "translated_code_single_use", "translated_deny_acked_iff",
+                            "translated_cancel_sticks_sequential", "translated_old_code_refused", "translated_deny_list_determined_by_admin",
+                            "translated_only_admin_mutates_deny_list", "translated_deny_list_step"]]
 # end to end: property theorems restated over histories of the translated code
 TIE_DENY = TIE_DENY + [(f"TieDenyE2E.{n}", "Relay.Tie.Deny") for n in
                        ["genStep_tie", "genRun_tie", "translated_register_refines_cell", "translated_latest_deny_wins", "translated_lists_disjoint"]]
@@ -61,7 +66,12 @@ TIE_HUB_NOTE = ("HUB TRANSLATION: the three cases of Hub.run's select and Hub.re
                 "the hand-written hub model (refine_run, witness computed by absRun), so the model's theorems transfer: the send queue of every joined client is "
                 "exactly the not-yet-written tail of the messages broadcast on its topic by others since it joined (translated_queue_exact). ")
 TIE_NOTE = ("TRANSLATOR TIE: internal/deny, internal/ttlcode, internal/chanmap, the scope / required-claims decisions, the session handler and the four admin handlers of internal/access, and internal/permission are translated to Lean on every run and proved, for all states, arguments and map "
-            "iteration orders, to be the store models this property's model builds on (Relay/Tie/*.lean). ")
+            "iteration orders, to be the store models this property's model builds on (Relay/Tie/*.lean). WHOLE HISTORIES of API calls (Relay/Tie/AccessE2E.lean): any sequence of "
+            "session / deny / allow / list requests, clock moves, prunes, sweeps and code exchanges run with the handlers and store methods as translated today corresponds, "
+            "step for step, to the model (api_run_tie); hence, of the translated code: a session is granted iff the model's guard cascade passes, minting exactly one new code "
+            "for exactly the model's token (C01); every code string is exchanged successfully at most once (C02); after an acknowledged deny of b, and until an admin allow / "
+            "a clock beyond its expiry, every session for b is refused, b stays denied through prunes, no code for b exists, and codes issued for b before the deny are "
+            "refused for ever (C07, sequential); the deny list is a function of the admin-granted deny/allow events alone (C09). ")
 TIE_ASSUMPTION = "translator vocabulary (Relay/Base/GoLite.lean): int64 as unbounded Int, pointer receiver as threaded value, mutex calls are not data (lock discipline: C12)"
 TIE_HUB_ASSUMPTION = ("hub translation vocabulary: a *Client is its field values plus an identity (addr__); whether a non-blocking send goes through is the "
                       "environment's choice (w.ready), tied to the model queue's hasRoom by hypothesis `hag` of sim_broadcast; the select in Hub.run takes one "
